@@ -2982,8 +2982,9 @@ static Node *new_inc_dec(Node *node, Token *tok, int addend) {
 
   // The old value of a _Bool cannot be recovered from the new one
   // (1 + 1 == 1), so save it: `tmp = &A, old = *tmp, *tmp = old + addend, old`.
-  // The same holds for a bit-field, whose new value wraps at its width.
-  if (node->ty->kind == TY_BOOL ||
+  // The same holds for a bit-field, whose new value wraps at its width,
+  // and for a floating type when the addition rounds ((x + 1) - 1 != x).
+  if (node->ty->kind == TY_BOOL || is_flonum(node->ty) ||
       (node->kind == ND_MEMBER && node->member->is_bitfield)) {
     Node *obj = (node->kind == ND_MEMBER) ? node->lhs : node;
     Obj *ptr = new_lvar("", pointer_to(obj->ty));
